@@ -95,7 +95,7 @@ static void run_reserved(uint64_t idx, pv_rng* rng) {
 static uint64_t n_random(void) { return pv_scaled(60000, 15000000); }
 static void run_random(uint64_t idx, pv_rng* rng) {
     pv_mseed m; pv_gen_mseed(rng, 7, true, &m);
-    polyseed_data* s = pv_seed_from_model(&m);
+    polyseed_data* s = pv_seed_any_path(rng, &m, pv_gen_coin(rng));      /* "a pure function of secret, birthday, features, coin and language": not of how the seed was obtained */
     if (!s) { pv_violation("C03/load-failed", "cannot load %s", pv_mseed_str(&m)); return; }
     check_checkvalue(s, &m);
     for (int k = 0; k < 3; ++k) {
@@ -159,7 +159,7 @@ static void run_lengths(uint64_t idx, pv_rng* rng) {
     long target = mn + (long)pv_randn(rng, (uint32_t)(mx - mn + 1));
     unsigned coin = pv_gen_coin(rng), d[16]; pv_mseed m;
     if (!pv_gen_exact_length(rng, L, coin, target, 7, d, &m)) { PV_COUNT("lengths.target_unreached", 1); return; }
-    polyseed_data* s = pv_seed_from_model(&m);
+    polyseed_data* s = pv_seed_any_path(rng, &m, coin);
     if (!s) { pv_violation("C03/load-failed", "cannot load %s", pv_mseed_str(&m)); return; }
     if (check_encode(s, &m, L, coin, "length-class")) { pv_countf(1, "lengths.%s.decile%ld", L->key, (target - mn) * 10 / (mx - mn + 1)); PV_COUNT("lengths.encoded", 1); }
     pv_api_free(s);
